@@ -245,6 +245,16 @@ func (ai *absInterp) run(start, pred *ssa.BasicBlock, idx int) aiOutcome {
 				if ai.store != nil {
 					ai.store(ai, t.Addr, val)
 				}
+			case *ssa.MakeSlice:
+				if n := ai.get(t.Len); n.kind == "int" && n.n >= 0 && n.n <= 8 {
+					lst := aiVal{kind: "list"}
+					for i := int64(0); i < n.n; i++ {
+						lst.tup = append(lst.tup, aiNil())
+					}
+					ai.env[t] = lst
+				} else {
+					ai.env[t] = aiUnknown()
+				}
 			case *ssa.Slice:
 				// a slice literal (slice of a local array whose elements were stored before) or a sub-slice of a list
 				if al, ok := t.X.(*ssa.Alloc); ok {
